@@ -48,6 +48,8 @@ func distFunc(name string) orb.DistanceFunc {
 	return planar.Distance
 }
 
+func ownPlanar(a, b orb.Point) float64 { return ownDistance("planar", a, b) }
+
 // oracleDF is the same metric without the nested calls (used by the oracle).
 func oracleDF(name string) orb.DistanceFunc {
 	if name == "planar-reentrant" {
@@ -162,11 +164,17 @@ func checkSpecLeaf(s Spec, in []orb.Point, ring bool, inf *info) ([]orb.Point, e
 			return out, fmt.Errorf("%s is not idempotent: in=%v once=%v twice=%v", what, short(in), short(out), short(again))
 		}
 	case "radial":
-		df := oracleDF(s.DF)
-		if err := checkRadialSpacing(what, out, df, float64(s.T)); err != nil {
-			return out, err
+		var dfErr error
+		df := checkedDF(s.DF, oracleDF(s.DF), &dfErr)
+		spacingErr := checkRadialSpacing(what, out, df, float64(s.T))
+		want := radialModel(in, df, float64(s.T))
+		if dfErr != nil {
+			return out, dfErr
 		}
-		if want := radialModel(in, df, float64(s.T)); !sameSeq(out, want) {
+		if spacingErr != nil {
+			return out, spacingErr
+		}
+		if !sameSeq(out, want) {
 			return out, fmt.Errorf("%s: a vertex was dropped although it is farther than the threshold from the last kept vertex (or kept although it is not): in=%v out=%v want=%v", what, short(in), short(out), short(want))
 		}
 	default:
@@ -1021,10 +1029,25 @@ func genPts(t *rapid.T, maxN int) (pts []orb.Point, isNil bool, fam string) {
 			pts = append(pts, orb.Point{S * (base + w*ux), S * (base + w*uy)})
 		}
 	case "lonlat":
+		// ordinary tracks, tracks that cross the antimeridian (longitude wraps from
+		// +180 to -180: geo.Distance must take the short way round) and tracks
+		// next to a pole (a degree of longitude is a few metres)
 		p := orb.Point{rapid.Float64Range(-179, 179).Draw(t, "lon"), rapid.Float64Range(-80, 80).Draw(t, "lat")}
+		switch rapid.IntRange(0, 5).Draw(t, "where") {
+		case 2:
+			p[0] = float64(rapid.SampledFrom([]int{-1, 1}).Draw(t, "side")) * (180 - rapid.Float64Range(0, 0.02).Draw(t, "off"))
+		case 3:
+			p[1] = float64(rapid.SampledFrom([]int{-1, 1}).Draw(t, "pole")) * (89.9 - rapid.Float64Range(0, 0.5).Draw(t, "off"))
+		}
 		for len(pts) < n {
 			pts = append(pts, p)
 			p = orb.Point{p[0] + rapid.Float64Range(-0.01, 0.01).Draw(t, "dlon"), p[1] + rapid.Float64Range(-0.01, 0.01).Draw(t, "dlat")}
+			if p[0] > 180 {
+				p[0] -= 360
+			} else if p[0] < -180 {
+				p[0] += 360
+			}
+			p[1] = math.Max(-90, math.Min(90, p[1]))
 		}
 	case "same":
 		p := orb.Point{float64(rapid.IntRange(-3, 3).Draw(t, "x")), rapid.Float64Range(-3, 3).Draw(t, "y")}
@@ -1147,7 +1170,7 @@ func assumptions() {
 	stats.Assume("coordinates are finite with |v| <= 1e100 (lattice, general position in [-10,10], spiky, UTM-like, web-mercator metres up to 2.1e7 with metre spacing, 1e8..1e100 scaled shapes, lon/lat; beyond ~1e154 triangle areas overflow and VisvalingamKeep panics: out of domain); thresholds are >= 0 (including +Inf and MaxFloat64), never NaN or negative; minimum counts are 0 (default) or >= 2")
 	stats.Assume("tolerances are relative to the case: distances t(1+1e-9) + 1e-9 x extent (bounding-box diagonal) + 32 eps x max|coordinate|; doubled areas a(1+1e-9)+1e-9 x diameter^2; the radial clause is exact (the check calls the same distance function as the simplifier)")
 	stats.Assume("extensions beyond the literal statement, from the package documentation: (a) Douglas-Peucker keeps a vertex only where the recursion must split (farthest vertex beyond the threshold), (b) radial drops a vertex only when it is within the threshold of the last kept vertex, (c) Visvalingam removes vertices in order of smallest effective area (area raised to that of a removed neighbour) and stops at the first effective area above the threshold; (a) and (c) are judged only on lines whose vertices are pairwise distinct (except the closing vertex), borderline values and ties are accepted either way")
-	stats.Assume("radial distance functions: planar.Distance, geo.Distance (lon/lat inputs only), a Manhattan distance defined in the harness")
+	stats.Assume("radial distance functions: planar.Distance (also through a re-entrant callback), geo.Distance (lon/lat inputs only, including antimeridian crossings and near-polar tracks), a Manhattan distance defined in the harness; every value of a library distance function that the radial oracle uses must agree with the harness's own formula within 1e-12 relative")
 	stats.Assume("float64 range: distances below 1e-150 and doubled areas below 1e-300 count as zero (their squares / products underflow: DouglasPeucker(0) drops a vertex 6e-163 away from the chord), |v| <= 1e100 (beyond ~1e154 they overflow)")
 	stats.Assume("rescaling: a third of the line cases (and half of the enumerated ones) are also judged multiplied by 2^k, k in -60..60 (distance thresholds by 2^k, area thresholds by 4^k, planar or Manhattan distance): every oracle must hold on the twin and every simplifier must keep exactly the same vertices; only cases whose non-zero magnitudes and thresholds lie in 2^-200..2^200 (or thresholds 0 / +Inf) are rescaled, so that no intermediate can overflow or underflow")
 	stats.Assume("concurrency: simplifier values are never shared between goroutines; concurrent groups use only checks that are pure functions of the case (no package-level configuration of orb is touched)")
@@ -1189,8 +1212,8 @@ func drawLineCase(rt *rapid.T, count bool) LineCase {
 	c := LineCase{Pts: gen.Pts(pts), Nil: isNil, Fam: fam}
 	c.Ring = rapid.Bool().Draw(rt, "ring")
 	c.DF = genDF(rt, fam)
-	a, ka := genDist(rt, "td1", pts, planar.Distance)
-	b, kb := genDist(rt, "td2", pts, planar.Distance)
+	a, ka := genDist(rt, "td1", pts, ownPlanar)
+	b, kb := genDist(rt, "td2", pts, ownPlanar)
 	if a > b {
 		a, b, ka, kb = b, a, kb, ka
 	}
@@ -1446,7 +1469,7 @@ func genSpec(t *rapid.T, pts []orb.Point) Spec {
 	s := Spec{Algo: algo}
 	switch algo {
 	case "dp":
-		v, _ := genDist(t, "t", pts, planar.Distance)
+		v, _ := genDist(t, "t", pts, ownPlanar)
 		s.T = gen.F(v)
 	case "radial":
 		s.DF = rapid.SampledFrom([]string{"planar", "planar-reentrant", "manhattan"}).Draw(t, "df")
@@ -1513,7 +1536,7 @@ func genHistSpec(t *rapid.T, pts []orb.Point) Spec {
 		v, _ := genDist(t, "ht", pts, oracleDF(s.DF))
 		s.T = gen.F(v)
 	case "dp":
-		v, _ := genDist(t, "ht", pts, planar.Distance)
+		v, _ := genDist(t, "ht", pts, ownPlanar)
 		s.T = gen.F(v)
 	default:
 		v, _ := genArea(t, "ht", pts)
